@@ -1408,8 +1408,26 @@ isal_deflate_set_dict(struct isal_zstream *stream, uint8_t *dict, uint32_t dict_
         return COMP_OK;
 }
 
+static int
+isal_deflate_stateless_int(struct isal_zstream *stream);
+
 int
 isal_deflate_stateless(struct isal_zstream *stream)
+{
+        /* Level 1 without a level buffer borrows the internal buffer for the
+         * duration of the call: level_buf and level_buf_size are the caller's and
+         * are handed back as they were */
+        uint8_t *level_buf = stream->level_buf;
+        uint32_t level_buf_size = stream->level_buf_size;
+        int ret = isal_deflate_stateless_int(stream);
+
+        stream->level_buf = level_buf;
+        stream->level_buf_size = level_buf_size;
+        return ret;
+}
+
+static int
+isal_deflate_stateless_int(struct isal_zstream *stream)
 {
         struct isal_zstate *state = &stream->internal_state;
         uint8_t *next_in = stream->next_in;
